@@ -281,3 +281,9 @@ Proof.
   exists (fun n r => (n =? r) || ((n =? 1) && (r =? 2))), [(1, [2]); (2, [])], [1; 2], [2; 1], 1.
   split; [apply perm_swap|]. vm_compute. split; [now left|]. intros [H|[]]. discriminate.
 Qed.
+
+(* in the model a failed attempt leaves no trace: the nodes after a node that is not ready see exactly the state it saw (the correspondence
+   checks this hypothesis on the real Schemas object before / after every failed update_schemas_with_data and process_model) *)
+Theorem failed_attempt_no_trace g done n t : ready g done n = false ->
+  round g done (n :: t) = (fst (round g done t), n :: snd (round g done t)).
+Proof. intro H. cbn [round]. now rewrite H. Qed.
